@@ -29,7 +29,8 @@
 (*  Crash   post                     process killed and store reopened       *)
 (*  Load    seq full post            cli `load` of a dump, store reopened    *)
 (*  Fault   id post q bc             Submit during which the engine failed   *)
-(*  Query   fs res                   a REQ's stored answer                   *)
+(*  Query   fs res [fault]           a REQ's stored answer (fault = k: the   *)
+(*                                   engine failed at the k-th fetch)        *)
 (*  Get     id found got via         get_event / GET /e/<id> (via = store|http)*)
 (***************************************************************************)
 EXTENDS Integers, Sequences, FiniteSets, TLC, Json
@@ -112,7 +113,7 @@ QueryStep ==
     /\ UNCHANGED svars
     /\ bad' = bad \cup {<<n, l, {}>> : n \in
               IF ~KnownIds(Range(Line.res)) THEN {"Garbage"}
-              ELSE Q!QueryVerdict(store, Line.fs, Line.res)
+              ELSE (IF "fault" \in DOMAIN Line THEN Q!FaultedVerdict(store, Line.fs, Line.res) ELSE Q!QueryVerdict(store, Line.fs, Line.res))
                    \* (a marker, not a property: the SQL answer is not what the single-statement semantics produce)
                    \cup (IF Backend = "sql" /\ ~Q!SqlModel(store, Line.fs, Line.res) THEN {"SqlModelDeviation"} ELSE {})}
 
